@@ -1,3 +1,7 @@
+\* Exhaustive: one publisher, one URI, every cut (crash and injected error)
+\* of every write, one fault per behaviour; the properties the specification
+\* (which models the code's quirks) satisfies.  checks/c11.py generates the
+\* other configurations from the same template.
 CONSTANTS
   Pubs <- PubsOne
   Uris <- UrisOneX
@@ -7,18 +11,26 @@ CONSTANTS
   MaxNr = 2
   MinAge = "zero"
   MaxAge = "inf"
-  MaxSerial = 3
+  MaxNrEquality = TRUE
+  MaxSerial = 4
   MaxSession = 2
   DeltaChoices <- Deltas1
+  TruncateOnCreate = FALSE
+  RemoveOldFirst = FALSE
   MaxFaults = 1
   Depth = 99
   FaultOdds = 1
 SPECIFICATION MCSpec
 CONSTRAINT RBound
 VIEW RView
-INVARIANT Inv11
-INVARIANT DeltasBoundedOnDisk
+INVARIANT RTypeOK
+INVARIANT NotificationRefsExist
+INVARIANT SnapshotIsStateAtSerial
+INVARIANT ClientCatchesUp
+INVARIANT DeltasContiguousOnDisk
+INVARIANT DeltasContiguousToCurrent
 PROPERTY DiskFollowsLogical
 PROPERTY WriteOk
-PROPERTY RsyncEqualsSnapshotAfterWrite
+PROPERTY SerialPlusOne
+PROPERTY SessionOnlyOnReset
 CHECK_DEADLOCK FALSE
